@@ -67,6 +67,16 @@ CLAIMS = {
              "for replays (C11 5.1.1.2, 6.4.4.4). Unverified: _build_specials_replacer's regular expressions beyond the bounded check, "
              "Code._write_escaped_cstring_const, the string-table writer's own chunking, encode_pyunicode_string.",
         ref="4 C11"),
+    "C41": dict(
+        text="Proof for ALL texts that Options.parse_directive_value, for a directive whose declared type is bool, returns True only for "
+             "'True' (with relaxed_bool also texts whose lower() is 'true' or 'yes'), False only for 'False' ('false' / 'no'), and "
+             "rejects every other text with ValueError - the last clause of the statement ('parsed to the documented value or "
+             "rejected') for the bulk of the directives. Kernel: this function, bool directives only.",
+        note="Trusted: dv Python front end (texts as abstract identities, str.lower() an uninterpreted function, directive_types.get an "
+             "opaque lookup, str() of a str the identity), z3. NOT covered: int / str / one_of() / callable directive types, "
+             "parse_directive_list, and the whole scoping and precedence part of the property (InterpretCompilerDirectives decorators and "
+             "with-blocks - seed C41-b is missed -, header comments, command line vs. header vs. defaults).",
+        ref="4 C41"),
     "C40": dict(
         text="Proof of the two decision points of safe type inference in TypeInference.py (real functions, sidecar contracts): "
              "MarkOverflowingArithmetic.visit_BinopNode visits the operand names of EVERY binary operator whose C result can leave the "
